@@ -2,5 +2,6 @@ package main
 
 // Every driver package registers itself in drivers.Registry from init().
 import (
+	_ "github.com/ProtonMail/gluon/verif/drivers/c16"
 	_ "github.com/ProtonMail/gluon/verif/drivers/selftest"
 )
